@@ -7,14 +7,25 @@ Line protocol handler for the `enm` domain (property C15). One self-contained ca
 enm enc <names> <container> <items>               -> OK <owner> <idx> <dec> <str> <re> <reraw> | ERR
 enm sel <names> <container> <items> <how> <positions> -> OK <idx> <dec> <str> | ERR
 enm dec <names> <indices> [<dtype/shape>]          -> <dec> <str>
+enm cmp <names> <container> <items> <op> <other>  -> V:<T/F…> | S:<T/F> | R:<list> | RAISE | ERR
 ```
+
+`cmp`: encode, then apply an operator of `EnumArray` to the result: `<op>` = `eq` `ne` (the two
+allowed ones), `add` `mul` `lt` `le` `gt` `ge` `and` `or` (forbidden: raise), `repr` `str` (the
+members / names the text shows; `<other>` = `-`).  `<other>`: `N` (None), `C.own` `C.twin`
+`C.foreign` (an enumeration class), `x:<item>` (one object, items as below), `L[.<container>]:<ints>`
+(list / tuple / array of integers), `B[.<what>]:<len>` (a list of `<len>` strings / members / …),
+`E.own:<indices>` `E.foreign:<indices>` (an `EnumArray`).  Answer: `ERR` when `encode` raises,
+`RAISE` when the operator raises, `V:` a boolean array (`-` when empty), `S:` a scalar.
 
 `sel`: encode, then select `<positions>` (comma separated, non-negative) from the result through
 the ndarray API (`<how>` names the numpy spelling — slice, mask, fancy, take, rev, copy, view,
 repeat, astype — and only matters to the implementation adapter), then decode the selection.
 
-* `<names>`: the member names in declaration order, comma separated; a name is the dot-joined
-  hex code points of its characters (`61.62` = "ab"); `-` = no name.
+* `<names>`: the names of the class body in declaration order, comma separated; a name is the
+  dot-joined hex code points of its characters (`61.62` = "ab"); `-` = no name; `<name>~<j>` is an
+  ALIAS: a name bound to the value of the j-th member declared before it (it creates no member;
+  indices and the names table only count the canonical members: `EnumCodec.declare`).
 * `<container>`: `seq[.list|.tuple|.deque|.array]`, `int[.<dtype>[.strided]]`,
   `str[.arr|.wide|.strided]`, `obj[.arr]`, `oth[.<dtype>]`, `zd[.<dtype>]` (0-dimensional array,
   exactly one item), `enc.own[.<dtype>]`, `enc.foreign` (apart from own/foreign the text after
@@ -51,6 +62,27 @@ def enmList (tok : String) : List String :=
 
 def enmShowList (xs : List String) : String :=
   if xs.isEmpty then "-" else ",".intercalate xs
+
+/-- the bindings of a `<names>` field: `<name>` declares a new member (bound to a fresh value),
+`<name>~<j>` binds the name to the value of the j-th canonical member declared so far (an alias) -/
+def enmBindings? (tok : String) : Option (List (String × Nat)) :=
+  let rec go (toks : List String) (c : Nat) (acc : List (String × Nat)) : Option (List (String × Nat)) :=
+    match toks with
+    | [] => some acc.reverse
+    | t :: rest =>
+      match t.splitOn "~" with
+      | [nm] => match enmName? nm with
+        | some s => go rest (c + 1) ((s, c) :: acc)
+        | none => none
+      | [nm, j] => match enmName? nm, j.toNat? with
+        | some s, some j => if j < c then go rest c ((s, j) :: acc) else none
+        | _, _ => none
+      | _ => none
+  go (enmList tok) 0 []
+
+/-- the names table (`_member_names_`) of the declared enumeration: `declare` on the bindings -/
+def enmNames? (tok : String) : Option (List String) :=
+  (enmBindings? tok).map fun bs => (declare bs).names
 
 def enmHead (tok : String) : String := (tok.splitOn ".").headD ""
 
@@ -98,10 +130,62 @@ def enmShowStr (e : Enumeration) (a : EnumArray) : String :=
   | .ok ss => enmShowList (ss.map enmShowName)
   | .error _ => "ERR"
 
+/-- right operand of a comparison: `N` | `C.own` `C.twin` `C.foreign` | `x:<item>` |
+`L[.<container>]:<ints>` | `B[.<what>]:<len>` | `E.own:<indices>` `E.foreign:<indices>` -/
+def enmOperand? (n : Nat) (tok : String) : Option Operand :=
+  match tok.splitOn ":" with
+  | ["N"] => some .none_
+  | ["C.own"] => some (.cls 0 n)
+  | ["C.twin"] => some (.cls 0 (n + 2))
+  | ["C.foreign"] => some (.cls 1 (n + 2))
+  | ["x", item] => (enmElem? item).map .elem
+  | [h, body] =>
+    match enmHead h with
+    | "L" => ((enmList body).mapM String.toInt?).map .ints
+    | "B" => body.toNat?.map .blind
+    | "E" =>
+      let owner := if h = "E.own" then 0 else 1
+      ((enmList body).mapM String.toNat?).map fun is => .arr ⟨owner, is⟩
+    | _ => none
+  | _ => none
+
+def enmShowCmp : Except String CmpRes → String
+  | .error _ => "RAISE"
+  | .ok (.scalar b) => if b then "S:T" else "S:F"
+  | .ok (.vec bs) => "V:" ++ (if bs.isEmpty then "-" else String.ofList (bs.map fun b => if b then 'T' else 'F'))
+
+def enmForbidden? : String → Option ForbiddenOp
+  | "add" => some .add | "mul" => some .mul | "lt" => some .lt | "le" => some .le
+  | "gt" => some .gt | "ge" => some .ge | "and" => some .and_ | "or" => some .or_
+  | _ => none
+
 def handleEnm (args : List String) : String :=
   match args with
+  | ["cmp", names, container, items, op, other] =>
+    match enmNames? names, enmInput? container (enmList items) with
+    | some ns, some x =>
+      let e : Enumeration := ⟨0, ns⟩
+      match encode e x with
+      | .error _ => "ERR"
+      | .ok a =>
+        -- the array's own enumeration: `e`, or the foreign one (n + 2 members)
+        let n := if a.owner == e.cid then e.size else e.size + 2
+        if op = "repr" then
+          (if a.owner == e.cid then "R:" ++ enmShowDec e a else "R:~")
+        else if op = "str" then
+          (if a.owner == e.cid then "R:" ++ enmShowStr e a else "R:~")
+        else
+          match enmOperand? e.size other with
+          | none => "BAD"
+          | some o =>
+            if op = "eq" then enmShowCmp (eqOp n a o)
+            else if op = "ne" then enmShowCmp (neOp n a o)
+            else match enmForbidden? op with
+              | some f => enmShowCmp (forbiddenOp f a o)
+              | none => "BAD"
+    | _, _ => "BAD"
   | ["enc", names, container, items] =>
-    match (enmList names).mapM enmName?, enmInput? container (enmList items) with
+    match enmNames? names, enmInput? container (enmList items) with
     | some ns, some x =>
       let e : Enumeration := ⟨0, ns⟩
       match encode e x with
@@ -115,7 +199,7 @@ def handleEnm (args : List String) : String :=
         s!"OK {if own then "own" else "foreign"} {enmShowList (a.idx.map toString)} {dec} {str} {re} {reraw}"
     | _, _ => "BAD"
   | ["sel", names, container, items, _how, positions] =>
-    match (enmList names).mapM enmName?, enmInput? container (enmList items),
+    match enmNames? names, enmInput? container (enmList items),
         (enmList positions).mapM String.toNat? with
     | some ns, some x, some ps =>
       let e : Enumeration := ⟨0, ns⟩
@@ -128,7 +212,7 @@ def handleEnm (args : List String) : String :=
     | _, _, _ => "BAD"
   | "dec" :: names :: idx :: rest =>
     if rest.length > 1 then "BAD" else
-    match (enmList names).mapM enmName?, (enmList idx).mapM String.toNat? with
+    match enmNames? names, (enmList idx).mapM String.toNat? with
     | some ns, some is =>
       let e : Enumeration := ⟨0, ns⟩
       s!"{enmShowDec e ⟨0, is⟩} {enmShowStr e ⟨0, is⟩}"
